@@ -106,8 +106,11 @@ def pieceOf (kind f a : String) : Option (String × List Char) := do
 
 /-- what the model embeds of the constants of the code (op `consts`) -/
 def constsLine : String :=
-  "buff_fits=" ++ (if max cfgNow.expMax 1 + cfgNow.fracMax + 7 ≤ cfgNow.size then "1" else "0") ++ " FRAC_MAX=" ++ toString cfgNow.fracMax ++ " EXP_MAX=" ++ toString cfgNow.expMax ++
-  " PREC_DEFAULT=6 sizeof_DOUBLE=8 sizeof_int=4 ops=1,2,4,8,16,32,16384,8192 sizeof_long_double=16"
+  "buff_fits=" ++ (if max cfgNow.expMax 1 + cfgNow.fracMax + 7 ≤ cfgNow.size then "1" else "0") ++ " FRAC_MAX=" ++ toString cfgNow.fracMax ++
+  -- round 3b: EXP_MAX (enters `buff_fits`; not observable over binary64 while it is ≥ 3) and the internal numbering of
+  -- the OPS_ flag bits are not fixed by the property: the harness reports them as tags; the flag word of a `pfd` op is
+  -- in the op line's own encoding (`opsOfMask`), translated to the library's bits by the harness
+  " PREC_DEFAULT=6 sizeof_DOUBLE=8 sizeof_int=4 sizeof_long_double=16"
 
 def opsOfMask (m : Nat) : Igris.C06.Ops :=
   { left := m % 2 = 1, sign := (m / 2) % 2 = 1, space := (m / 4) % 2 = 1, spec := (m / 8) % 2 = 1,
